@@ -455,6 +455,28 @@ func Packet(t *sim.Tape, cfg Cfg) *ref.AP {
 		g.couple(a, &cfg)
 	}
 	nameTheReason(t, a)
+	if g.padWant > 0 {
+		// the padding was measured before the last additions: adjust it
+		for round := 0; round < 3; round++ {
+			f, _ := ref.Encode(a)
+			_, body, _, err := ref.SplitFrame(f)
+			if err != nil || len(body) == g.padWant {
+				break
+			}
+			for i := len(a.Props) - 1; i >= 0; i-- {
+				if p := &a.Props[i]; p.ID == 0x26 && string(p.K) == "k" {
+					if n := len(p.V) + g.padWant - len(body); n >= 0 && n < 400 {
+						v := make([]byte, n)
+						for j := range v {
+							v[j] = 'p'
+						}
+						p.V = v
+					}
+					break
+				}
+			}
+		}
+	}
 	if t.Bool(1, 12) {
 		tuneShift(t, a)
 	}
@@ -495,12 +517,17 @@ func (g *G) ofType(typ byte, cfg *Cfg) *ref.AP {
 		a.ClientID = g.Str(g.Len())
 		if t.Bool(1, 2) {
 			w := &ref.Will{QoS: byte(t.Int(3)), Retain: t.Bool(1, 2)}
-			w.Topic = g.Str(g.Len1())
+			w.Topic = g.Topic()
 			if !wf && t.Bool(1, 10) {
 				w.Topic = []byte{} // constructible, not well formed
 			}
 			w.Payload = g.Bin(g.Len())
 			w.Props = g.props(ref.WillScope, cfg)
+			for _, pr := range w.Props {
+				if pr.ID == 0x01 && pr.N == 1 && t.Bool(1, 2) {
+					w.Payload = g.Document()
+				}
+			}
 			a.Will = w
 			a.ConnFlags |= ref.CFWill | w.QoS<<3
 			if w.Retain {
@@ -551,7 +578,7 @@ func (g *G) ofType(typ byte, cfg *Cfg) *ref.AP {
 		case !wf && t.Bool(1, 10):
 			a.Topic = []byte{}
 		default:
-			a.Topic = g.Str(g.Len1())
+			a.Topic = g.Topic()
 		}
 		if q > 0 {
 			a.PacketID = g.U16()
@@ -572,13 +599,19 @@ func (g *G) ofType(typ byte, cfg *Cfg) *ref.AP {
 				// payload format indicator 1: the payload is text - sometimes text that
 				// begins with a byte order mark or another code point with a reputation
 				a.Payload = g.Str(n)
-				if n >= 3 && t.Bool(1, 4) {
+				if t.Bool(1, 3) {
+					a.Payload = g.Document() // text that is a document in some format
+				}
+				if n >= 3 && len(a.Payload) >= 3 && t.Bool(1, 4) {
 					sp := unicodeSpecials[t.Int(2)] // U+FFFD or U+FEFF
 					if a.Payload[0] < 0x80 && a.Payload[1] < 0x80 && a.Payload[2] < 0x80 {
 						copy(a.Payload, sp)
 					}
 				}
 			}
+		}
+		if n <= 65535 && t.Bool(1, 16) {
+			a.Payload = g.Document()
 		}
 		if len(a.Payload) > 0 && t.Bool(1, 6) {
 			// a payload that continues in the syntax of what precedes it: it begins with
@@ -622,6 +655,7 @@ func (g *G) ofType(typ byte, cfg *Cfg) *ref.AP {
 				if pad >= 0 && pad < 120 {
 					a.Props = append(a.Props, ref.Prop{ID: 0x26, K: []byte("k"), V: g.str0(pad)})
 					a.Form = 2
+					g.padWant = want
 				}
 			}
 		}
